@@ -194,6 +194,13 @@ class InlineTranslator:
                 != replace_cond.atom.symbol.arguments[hv_pos]  # pylint: disable=undefined-loop-variable
             ):
                 return atom
+            # the tuple has to identify the inlined atom, otherwise equal values of different atoms collapse
+            tuple_vars: set[AST] = set()
+            for term in replace_elem.terms[1:]:
+                tuple_vars.update(collect_ast(term, "Variable"))
+            for pos, arg in enumerate(replace_cond.atom.symbol.arguments):
+                if pos != hv_pos and not set(collect_ast(arg, "Variable")).issubset(tuple_vars):  # pylint: disable=undefined-loop-variable
+                    return atom
             # replace headrule body aggregate with inlined version of the conditions
             new_elements = self.compute_new_body_elements(rule, replace_cond, replace_elem, agg, atom, unique_vars)
             return atom.update(function=result_function, elements=rest_elems + new_elements)
@@ -242,6 +249,12 @@ class InlineTranslator:
 
         # replace body aggregate with inlined version of the conditions
         rbody = [blit for blit in stm.body if not (blit.ast_type == ASTType.Literal and blit.atom == agg)]
+        # one value per binding of the global variables, they have to be part of the tuple to stay distinct
+        term_vars: set[AST] = set()
+        for term in stm.terms:
+            term_vars.update(collect_ast(term, "Variable"))
+        if not global_vars_inside_body(rbody).issubset(term_vars):
+            return [stm]
         new_minimizes = []
         max_arity = 0
         for tuple_ in self.minimize_tuples:
